@@ -11,6 +11,9 @@ EXPLANATION = ("C17: (R1) the pairing rule (name of the current token, when its 
 NOT_DECIDED = "that the right declaration is found for all programs (heuristic by design)."
 
 RULES = {
+    # resolution reads the minified text through SourceView::get_line: the line splitting and the freshness of views
+    "C17.R5": lambda ctx: __import__("rules.svrules", fromlist=["x"]).fresh_views(ctx, "C17.R5"),
+    "C17.R6": lambda ctx: __import__("rules.svrules", fromlist=["x"]).c15_r1_protocol(ctx, "C17.R6"),
     "C17.RL": lambda ctx: __import__("rules.common", fromlist=["x"]).loop_exit_rule(ctx, "C17.RL", {'sourceview::SourceView::get_original_function_name': 1, 'js_identifiers::strip_identifier': 1, "<sourceview::RevTokenIter<'view, 'map> as core::iter::traits::iterator::Iterator>::next": 2}),
     "C17.R1": lambda ctx: fnrules.pairing(ctx, "C17.R1"),
     "C17.R2": lambda ctx: fnrules.rev_iter(ctx, "C17.R2"),
